@@ -29,6 +29,7 @@ func init() {
 			{ID: "C14.R5", Floor: 3, Run: c01r7, Text: "swap-remove moves every column (= C01.R7): a column skipped on removal leaves the surviving entity pointing at the removed entity's referent"},
 			{ID: "C14.R6", Floor: 3, Run: columnEffectsComplete, Text: "per-column effects are not skipped (= C01.R12)"},
 			{ID: "C14.R7", Floor: 2, Run: idsNotFabricated, Text: "component ids in per-column loops come from the table's id list (= C01.R13): zeroing by buffer position clears the wrong columns"},
+			{ID: "C14.R8", Floor: 1, Run: typeListedForItsID, Text: "a column's type is the registry's type for its id: in every componentType{ID, Type} literal Type is registry.Types[ID.id]"},
 		},
 	})
 }
